@@ -68,11 +68,38 @@ def every_day():
             d += dt.timedelta(days=1)
 
 
+def special_dates(cultures, years):
+    """Deterministic part: leap days, month ends/starts and swap-sensitive days of the given years x every layout."""
+    import calendar
+
+    def gen():
+        refs = ['2016-11-07T00:00:00', '2000-02-29T09:00:00', '2087-12-31T23:59:59', '1950-01-01T00:00:00']
+        i = 0
+        for c in cultures:
+            for y in years:
+                days = set()
+                for m in range(1, 13):
+                    days.add(dt.date(y, m, 1))
+                    days.add(dt.date(y, m, calendar.monthrange(y, m)[1]))
+                for m, d in ((2, 28), (3, 4), (4, 3), (12, 11), (11, 12), (1, 10), (10, 1), (5, 13), (12, 25)):
+                    days.add(dt.date(y, m, d))
+                for d in sorted(days):
+                    for name in sorted(G.layouts(c)):
+                        i += 1
+                        yield {'culture': c, 'date': d.isoformat(), 'layout': name, 'ref': refs[i % 4], 'ref2': refs[(i + 1) % 4],
+                               'carrier': G.DATE_CARRIERS[c][i % len(G.DATE_CARRIERS[c])]}
+    return gen
+
+
 def parts(tier, seed):
     q = tier == 'quick'
     ps = [hyp_part('en-us', lambda: cases('en-us'), run_case, 3000 if q else 60000, min_shard=200)]
     for c in G.DT_CULTURES[1:]:
         ps.append(hyp_part(c, (lambda c=c: cases(c)), run_case, 600 if q else 10000, min_shard=150))
+    ps.append(enum_part('special-dates-en', special_dates(['en-us'], [1900, 1996, 2000, 2019, 2020, 2099] if q else range(1900, 2100, 3)), run_case,
+                        exhaustive=True))
+    ps.append(enum_part('special-dates-other', special_dates(G.DT_CULTURES[1:], [2000, 2019, 2096] if q else [1900, 1999, 2000, 2016, 2019, 2020, 2096, 2099]),
+                        run_case, exhaustive=True))
     if not q:
         ps.append(enum_part('en-every-day-8-years', every_day, run_case, exhaustive=True))
     return ps
